@@ -1,1 +1,2 @@
 import OtelVerif.Props.C09
+import OtelVerif.Props.C18
